@@ -24,7 +24,8 @@ NmB == 2
 NmFailed == 3       \* root attribute created by Context.__init__ WITHOUT an _origin entry
 NmText == 4
 NmTable == 5
-Absent == 0         \* value codes: 1, 2 user values
+Absent == 0         \* value codes: 1, 2 user values; user values may also be 3 False, 6 None, 7 the int 0, 8 '', 9 []
+                    \* (the Context is value agnostic: presence is dict membership, never truthiness)
 VFalse == 3         \* initial value of context.failed
 VCaller == 4        \* text of the step that calls execute_steps
 VSub == 5           \* table of the sub-step
